@@ -127,6 +127,7 @@ def _eval_edit(case):
     steps = [0]
 
     def on_step(m, i, name):
+        em.check_ghosts(m, "after step %d (%s)" % (i, name), structural=True, values=True)
         if m.twin is not None:
             steps[0] += 1
             compare_twins(m, "after step %d (%s)" % (i, name), strict_labels=(name == "fork"))
